@@ -351,6 +351,9 @@ func judge(prop, tier string, seed int, res *runResult, start time.Time, writeBa
 		"integer_model":        "mathematical Int with Go wrap-around applied on every + - * and narrowing conversion (mod 2^n); functions marked `arith checked` prove absence of overflow instead",
 		"explanation":          "each obligation is one SMT query (assumptions AND path condition AND NOT goal) generated from go/ssa of /repo's working tree; discharged = unsat by at least one solver and sat by none",
 	}
+	for k, v := range res.extra {
+		ev.Coverage[k] = v
+	}
 	ev.Assumptions = trusted
 	if err := writeJSON(filepath.Join(verifDir, "evidence", prop+".json"), ev); err != nil {
 		fmt.Fprintf(os.Stderr, "govc: cannot write evidence: %v\n", err)
